@@ -6,7 +6,9 @@
 EXTENDS Naturals, Sequences, ScnRand, TLC, Json
 CONSTANT Count
 VARIABLE n
-Kinds == << "interactive", "interactive", "command", "command-eager", "escalate", "escalate", "interactive-network" >>
+\* "command-doubled": a plain command that ends in a doubled letter, typed while unsolicited device output is still unread, with the
+\* echo trickling in (the echo wait must not be satisfied one character early)
+Kinds == << "interactive", "interactive", "command", "command-eager", "escalate", "escalate", "interactive-network", "command-doubled" >>
 EscOutcomes == << "asks", "grants", "refuses", "rejects" >>
 EvShapes == << [hidden |-> FALSE, resp |-> TRUE], [hidden |-> FALSE, resp |-> FALSE], [hidden |-> TRUE, resp |-> TRUE], [hidden |-> TRUE, resp |-> FALSE] >>
 Scn(m) == LET kind == Pick(Kinds, m, 1)
@@ -17,6 +19,8 @@ Scn(m) == LET kind == Pick(Kinds, m, 1)
               early |-> Below(4, m, 3) = 0,            \* the device shows a completion pattern before the last event
               esc |-> Pick(EscOutcomes, m, 4),
               delayus |-> 300 + 400 * Below(6, m, 5),
+              \* before its question the device prints a listing that is longer than the channel's prompt search depth
+              long |-> Below(3, m, 7) = 0,
               \* used by C11 only: the write carrying the secret fails / the connection breaks right after the secret was sent
               fault |-> Pick(<<"", "werr-on-secret", "rerr-after-secret">>, m, 6)]
 Init == n = 0
